@@ -86,7 +86,8 @@ type Task struct {
 	wpend  bool // an exclusive request that has been issued and now excludes new shared holders (RWMutex writer preference)
 	sys    *SysReq
 	point  string
-	Panic  string // set when fn panicked
+	fin    atomic.Uint32 // set by the task's goroutine when fn has returned; read by Run (a join the race detector can see)
+	Panic  string        // set when fn panicked
 	// Local is scratch space for the task's own goroutine (engines use it to
 	// count scheduling points within one operation).
 	Local int
@@ -182,6 +183,10 @@ func (t *Task) main() {
 		}()
 		t.fn(t)
 	}()
+	// The scheduler's hand-offs are hidden from the race detector; the end of a
+	// task is not: what a task wrote is ordered before what the driver does
+	// once Run has returned (fork and join are real edges, nothing in between is).
+	t.fin.Store(1)
 	hideSync()
 	t.report <- report{kind: rDone}
 	unhideSync()
@@ -401,6 +406,16 @@ func (s *Sched) grant(t *Task) {
 	t.wkey = ""
 }
 
+// forgetLocks removes task t from the holders of every modelled lock.
+func (s *Sched) forgetLocks(t *Task) {
+	for _, k := range s.keys {
+		if k.writer == t {
+			k.writer = nil
+		}
+		delete(k.readers, t)
+	}
+}
+
 // settle waits (spinning, never blocking durably) until the released task has
 // reported or is seen blocked on a lock or inside a sleep.
 func (s *Sched) settle(t *Task) {
@@ -413,10 +428,19 @@ func (s *Sched) settle(t *Task) {
 		}
 		runtime.Gosched()
 		if spins >= 1 {
-			switch classify(goStatus(t.goid, s)) {
+			reason := goStatus(t.goid, s)
+			switch classify(reason) {
 			case clsLock:
 				if t.state != stLockBlocked {
 					s.LockBlocks++
+				}
+				if strings.HasPrefix(reason, "sync.Cond") {
+					// sync.Cond.Wait released its Locker without telling the lock
+					// model (and takes it again, untold, before it returns): what
+					// this task holds is no longer known. Forget its locks; from
+					// here on the real locks decide and the probing fall-back
+					// sees who is blocked.
+					s.forgetLocks(t)
 				}
 				s.setHazard()
 				t.state = stLockBlocked
@@ -568,6 +592,14 @@ func (s *Sched) confirm() bool {
 // Run starts every task and schedules them until all are done or a verdict
 // other than OK is reached.
 func (s *Sched) Run() Verdict {
+	v := s.run()
+	for _, t := range s.Tasks {
+		t.fin.Load() // join (see Task.main)
+	}
+	return v
+}
+
+func (s *Sched) run() Verdict {
 	for _, t := range s.Tasks {
 		go t.main()
 	}
